@@ -138,6 +138,8 @@ theorem Mgr.init_noloop (st : Store) (b : BindSet) : (Mgr.init st b).2.2 ≠ .er
   | none => simp [Mgr.init]
   | core => exact bindAll_noloop false _ _ _
   | rdflib => exact bindAll_noloop false _ _ _
+  | cc => simp [Mgr.init]
+  | unknown => simp [Mgr.init]
 
 /-! ### the serializer's `while p in self.namespaces: p = "p" + p` -/
 
@@ -240,6 +242,48 @@ theorem serDoc_noloop (fb : Bool) : ∀ (qs : List (Str × Bool)) (st : Store) (
     · exact serDoc_noloop fb r _ _ _ _
     · exact serDoc_noloop fb r _ _ _ _
 
+theorem serTrig_noloop (fb : Bool) : ∀ (cs : List (Bool × List (Str × Bool))) (s : St) (d : Doc)
+    (acc : List (Str × Str × Str)), (serTrig fb cs s d acc).2 ≠ .error .Loop
+  | [], _, _, _ => by simp [serTrig]
+  | (i, qs) :: r, s, d, acc => by
+    simp only [serTrig]
+    split
+    · next e he =>
+      intro h
+      simp only at h
+      injection h with h; subst h
+      exact serDoc_noloop fb qs _ _ _ _ he
+    · exact serTrig_noloop fb r _ _ _
+
+theorem strictSeq_noloop : ∀ (us : List Str) (st : Store) (m : Mgr) (acc : List QN),
+    (strictSeq us st m acc).2.2 ≠ .error .Loop
+  | [], _, _, _ => by simp [strictSeq]
+  | u :: r, st, m, acc => by
+    simp only [strictSeq]
+    split
+    · next e he =>
+      intro h
+      simp only at h
+      injection h with h; subst h
+      exact computeQnameStrict_noloop _ _ u true he
+    · exact strictSeq_noloop r _ _ _
+
+theorem serXml_noloop (preds stmts : List Str) (st : Store) (m : Mgr) :
+    (serXml preds stmts st m).2.2 ≠ .error .Loop := by
+  unfold serXml
+  simp only
+  split
+  · next e he =>
+    intro h; simp only at h; injection h with h; subst h
+    exact strictSeq_noloop preds st m [] he
+  · split
+    · simp
+    · split
+      · next e he =>
+        intro h; simp only at h; injection h with h; subst h
+        exact strictSeq_noloop stmts _ _ [] he
+      · simp
+
 theorem outQN_noloop {r : Except Err QN} (h : r ≠ .error .Loop) : outQN r ≠ .err .Loop := by
   cases r with
   | ok q => obtain ⟨a, b, c⟩ := q; simp [outQN]
@@ -253,7 +297,29 @@ theorem outStr_noloop {f : QN → Str} {r : Except Err QN} (h : r ≠ .error .Lo
 /-- no operation, in any state, answers `Loop` -/
 theorem St.step_noloop (s : St) (op : Op) : (s.step op).2 ≠ .err .Loop := by
   cases op with
-  | minit i b => exact Mgr.init_noloop _ b
+  | minit i b =>
+    simp only [St.step]
+    split
+    · next e he =>
+      intro h; injection h with h; subst h
+      cases b <;> simp [BindSet.bad] at he
+    · exact Mgr.init_noloop _ b
+  | serxml i preds stmts =>
+    simp only [St.step]
+    split
+    · simp
+    · next e he =>
+      intro h
+      injection h with h; subst h
+      exact serXml_noloop preds stmts _ _ he
+  | sertrig fb cs =>
+    simp only [St.step]
+    split
+    · simp
+    · next e he =>
+      intro h
+      injection h with h; subst h
+      exact serTrig_noloop fb cs _ _ _ he
   | bind i p n ov rp => exact Mgr.bind_noloop _ _ p n ov rp
   | sbind p n ov => simp only [St.step]; split <;> simp
   | cq i u g => exact outQN_noloop (computeQname_noloop _ _ u g)
